@@ -25,13 +25,22 @@ def gen_scenario(rng):
     n = rng.choice([4, 8, 12, 20, 30])
     p_map = rng.choice([0.0, 0.0, 0.3, 0.6])
     p_async = rng.choice([0.0, 0.2, 0.5])
+    p_paged = rng.choice([0.0, 0.25, 0.5])
+    loading = set()
     npend = 0
     for _ in range(n):
         r = rng.random()
         ch = rng.randint(1, nch)
-        busy = {c for i, c in pending if i not in done}
+        busy = {c for i, c in pending if i not in done} | loading
+        if r < 0.12 and loading:
+            c2 = rng.choice(sorted(loading))
+            loading.discard(c2)
+            ops.append(f"page ch={c2} len={lens[c2]}")
+            continue
         if r < 0.55:
             kind = "m" if rng.random() < p_map else "r"
+            if rng.random() < p_paged and ch not in lens:
+                kind = "p"
             base = len(f"c{ch}")
             if ch not in lens:
                 lens[ch] = base
@@ -42,6 +51,11 @@ def gen_scenario(rng):
                 continue
             asy = 1 if rng.random() < p_async else 0
             ok = 0 if rng.random() < 0.15 else 1
+            if kind == "p":
+                # a paged map subscribe stays in c.mapSubscribing until its `page` op; the channel is used
+                # for nothing else in the scenario (it is treated as busy even if the attempt was refused)
+                asy, ok = 0, 1
+                loading.add(ch)
             ops.append(f"sub ch={ch} len={ln} kind={kind} async={asy} ok={ok}")
             if asy:
                 # slot numbers count async attempts in op order; one that was refused before the handler
@@ -227,11 +241,13 @@ def run(ctx):
         corpus = [l.strip() for l in open(os.path.join(here, "corpus.ops")) if l.strip() and not l.startswith("#")]
         scs = split_scenarios(corpus) + [gen_scenario(ctx.rng) for _ in range(ctx.scale(700, 4000))]
         # boundary cases around k*L == ClientQueueMaxSize (L = 52 for the probe message), always run
-        scs += [[f"slow qmax={q} k={k}"] for q in (155, 156, 157, 207, 208, 209) for k in (2, 3, 4)]
-        for _ in range(ctx.scale(25, 400)):
+        scs += [[f"slow qmax={q} k={k} delay={d} timer={t}"] for q in (155, 156, 157, 207, 208, 209) for k in (2, 3, 4)
+                for d, t in ((0, 0), (10, 1), (10, 0))]
+        for _ in range(ctx.scale(15, 400)):
             qmax = ctx.rng.choice([0, 155, 156, 157, 200, 208, 520, 1000, 1040])
             k = ctx.rng.choice([0, 1, 2, 3, 4, 5, 9, 10, 11, 19, 20, 30])
-            scs.append([f"slow qmax={qmax} k={k}"])
+            d, t = ctx.rng.choice([(0, 0), (0, 0), (5, 1), (10, 1), (10, 0)])
+            scs.append([f"slow qmax={qmax} k={k} delay={d} timer={t}"])
     ops = [op for s in scs for op in s]
     impl = ctx.go_run(binary, "TestVerifC37", ops, timeout=ctx.scale(240, 1500))
     ctx.log(f"implementation ran {len(impl)}/{len(ops)} lines")
@@ -249,7 +265,7 @@ def run(ctx):
         out = out + ["<missing>"] * (len(s) - len(out))
         if s[0].startswith("slow"):
             ctx.count("slow:closed=" + kvs(out[0]).get("closed", "?"))
-        refused = any(kvs(o).get("res") in ("limit", "bad", "already", "disconnect", "failed") for o in out)
+        refused = any(kvs(o).get("res") in ("limit", "bad", "already", "disconnect", "failed", "loading") for o in out)
         ctx.record("\n".join(s), nontrivial=refused or any("complete" in op for op in s))
         for op, o in zip(s, out):
             ctx.count(op.split()[0] + (":" + kvs(op).get("kind", "") if op.startswith("sub") else ""))
